@@ -823,4 +823,54 @@ def monLogLine (env : Env) (flags instId options : Nat) (extra : ExtraReg) (ops 
       else (body, !body.contains ';')
     okComment && okCol && monInstruction env flags instId options extra ops ["short", "long", "rex"] (trimR (trimL instText))
 
+/-! ## Builder nodes: what the text of a node denotes -/
+
+def isDigitC (c : Char) : Bool := c.isDigit
+
+/-- a decimal number at the front, and the rest -/
+def readNat (s : Str) : Option (Nat × Str) := (parseDec (s.takeWhile isDigitC)).map fun n => (n, s.dropWhile isDigitC)
+
+/-- data directive names by architecture and item size (x86: db dw dd dq; AArch64: byte hword word xword) -/
+def dataWord (arch : Arch) (size : Nat) : Option Str :=
+  (match arch, size with
+   | .a64, 1 => some "byte" | .a64, 2 => some "hword" | .a64, 4 => some "word" | .a64, 8 => some "xword"
+   | .a64, _ => none
+   | _, 1 => some "db" | _, 2 => some "dw" | _, 4 => some "dd" | _, 8 => some "dq" | _, _ => none).map String.toList
+
+/-- `.align 16 (code)` -/
+def readAlign (s : Str) : Option (Nat × Nat) :=
+  (stripPrefix? ".align ".toList s).bind fun r =>
+  (readNat r).bind fun (n, rest) =>
+  if rest == " (code)".toList then some (0, n) else if rest == " (data)".toList then some (1, n) else none
+
+/-- `.dd {Count=3 Repeat=2 TotalSize=12}` -/
+def readEmbed (arch : Arch) (size : Nat) (s : Str) : Option (Nat × Nat × Nat) :=
+  (dataWord arch size).bind fun w =>
+  (stripPrefix? (['.'] ++ w ++ " {Count=".toList) s).bind fun r =>
+  (readNat r).bind fun (count, r) =>
+  (stripPrefix? " Repeat=".toList r).bind fun r =>
+  (readNat r).bind fun (rep, r) =>
+  (stripPrefix? " TotalSize=".toList r).bind fun r =>
+  (readNat r).bind fun (total, r) => if r == ['}'] then some (count, rep, total) else none
+
+/-- the text of a node denotes the node: an instruction node reads back as the instruction (inline comment after `; `),
+    a label node as `label:`, align / embed-data / comment nodes as their content -/
+def monNode (env : Env) (flags : Nat) (n : Node) (inl : Option Str) (text : Str) : Bool :=
+  match n with
+  | .comment t => text == "; ".toList ++ t
+  | _ =>
+    -- split off the inline comment
+    match (match inl with
+           | some c => (stripSuffix? ("; ".toList ++ c) text).map trimR
+           | none => some text : Option Str) with
+    | none => false
+    | some body =>
+      match n with
+      | .inst id opts extra ops => monInstruction env flags id opts extra ops [] body
+      | .label id => (match dropLast? ':' body with | some l => parseLabel env l == some id | none => false)
+      | .align mode nn => readAlign body == some ((if mode = 0 then 0 else 1), nn)
+      | .embedData size count rep => readEmbed env.arch size body == some (count, rep, size * count)
+      | .section name => body == ".section ".toList ++ name
+      | .comment _ => false
+
 end AsmjitVerif.FormatText
